@@ -32,6 +32,11 @@ type Exec struct {
 	Env     func() []EnvEvent // optional: environment events currently available
 	Cleanup func()            // optional: run (as a controlled goroutine, default schedule) after the main phase
 	Data    any               // scenario-owned per-execution state (event log, objects)
+	// BackgroundInMainPhase keeps exploring after all operations returned, as long as goroutines spawned by the
+	// code under test (write loops, dial workers) still have enabled scheduling points.
+	BackgroundInMainPhase bool
+	// AtQuiescence, if set, is called by the controller once when the main phase ends (before Cleanup starts).
+	AtQuiescence func()
 }
 
 // Go starts an operation goroutine.
@@ -120,17 +125,26 @@ func (e *Explorer) RunExpect(sc Scenario, prefix []int, expect []Step) *Result {
 		var last *vsync.Gor
 		mainPhase := true
 		cleanupStarted := false
+		quiesced := false
 		for step := 0; ; step++ {
 			synctest.Wait()
 			opts, parked, blocked, unfinished := ctl.Collect()
-			if mainPhase && x.OpsDone() {
+			if mainPhase && x.OpsDone() && (len(opts) == 0 || !x.BackgroundInMainPhase) {
+				// the main (recorded, branching) phase lasts until every operation returned; with
+				// BackgroundInMainPhase also until no background goroutine of the code under test can move
 				mainPhase = false
 			}
 			if res.Diverged != "" && !x.OpsDone() && len(opts) == 0 && (x.Env == nil || len(x.Env()) == 0) {
 				res.Deadlock, res.Stuck, res.Unfinished = true, true, unfinished
 				break
 			}
-			if !mainPhase && !cleanupStarted && x.Cleanup != nil && parked == 0 {
+			if !mainPhase && !quiesced && res.Diverged == "" {
+				quiesced = true
+				if x.AtQuiescence != nil {
+					x.AtQuiescence()
+				}
+			}
+			if !mainPhase && !cleanupStarted && x.Cleanup != nil && len(opts) == 0 {
 				cleanupStarted = true
 				x.C.Go("cleanup", x.Cleanup)
 				continue
@@ -180,6 +194,7 @@ func (e *Explorer) RunExpect(sc Scenario, prefix []int, expect []Step) *Result {
 			}
 			n := len(ordered) + len(envs)
 			if n == 0 {
+				// operations unfinished (else the main phase would have ended) and nothing can move
 				res.Deadlock = true
 				res.Unfinished = unfinished
 				res.Stuck = true
@@ -312,4 +327,26 @@ func SameTrace(a, b *Result) string {
 		}
 	}
 	return ""
+}
+
+// CheckReplayable executes the default schedule and then replays its full choice sequence until an execution offers
+// the same options at every step (the code under test may take decisions the harness does not own, e.g. map
+// iteration order; those make a replay diverge now and then). It returns "" when a matching replay was seen within
+// 400 attempts, else a description of the last mismatch.
+func (e *Explorer) CheckReplayable(sc Scenario) (*Result, string) {
+	r1 := e.Run(sc, nil)
+	last := ""
+	for try := 0; try < 400; try++ {
+		r2 := e.RunExpect(sc, r1.Choices, r1.Steps)
+		if r2.Diverged == "" {
+			if d := SameTrace(r1, r2); d == "" {
+				return r1, ""
+			} else {
+				last = d
+			}
+		} else {
+			last = r2.Diverged
+		}
+	}
+	return r1, last
 }
